@@ -28,7 +28,7 @@
     any time: a theorem over all label lists is a theorem over all client programs, any number
     of handlers / calls / threads, and all schedules.  Every step also emits the API-level events
     the property monitor (RouterLife/Monitor.v) judges.  No proofs here. *)
-From WM Require Import Base.Prelude.
+From WM Require Import Base.Prelude Base.Count.
 From RecordUpdate Require Import RecordSet.
 Import RecordSetNotations.
 
@@ -69,14 +69,15 @@ Record hst := HS {
   h_mid : bool;                (* ghost: Subscribe returned, h.started not yet set *)
   h_stopreq : bool;            (* ghost: a Stop() call on this handler reached stopFn() *)
   h_envend : bool;             (* ghost: the environment ended this handler's subscription *)
+  h_removed : bool;            (* Close released and removed it because it was never started (D16 repair) *)
   h_loop : lpc;
   h_hc : cpc
 }.
 #[export] Instance eta_hst : Settable _ := settable! HS
   <h_pub; h_hon; h_par; h_inmap; h_started; h_startedCh; h_stopFn; h_stoppedSet; h_stoppedCh;
-   h_cancel; h_subOpen; h_subs; h_inflight; h_mid; h_stopreq; h_envend; h_loop; h_hc>.
+   h_cancel; h_subOpen; h_subs; h_inflight; h_mid; h_stopreq; h_envend; h_removed; h_loop; h_hc>.
 
-Definition h0 : hst := HS None false PRun false false false false false false false false 0 0 false false false LNone CNone.
+Definition h0 : hst := HS None false PRun false false false false false false false false 0 0 false false false false LNone CNone.
 
 Inductive owner := OMain | OThr (t : tid) | OWatch.
 
@@ -134,6 +135,7 @@ Record rstate := RS {
   fix4 : bool;                 (* D4 repaired *)
   fix14 : bool;                (* D14 repaired *)
   fix15 : bool;                (* D15 repaired: the watcher's select also waits for the Run context *)
+  fix16 : bool;                (* D16 repaired: Close releases and removes the handlers that were never started *)
   nexth : nat;
   hs : hid -> hst;
   isRunning : bool;
@@ -158,11 +160,11 @@ Record rstate := RS {
   panicked : bool              (* runtime panic inside a router goroutine (negative WaitGroup counter) *)
 }.
 #[export] Instance eta_rstate : Settable _ := settable! RS
-  <fix4; fix14; fix15; nexth; hs; isRunning; runningCh; hlock; clock; hwg; hadded; maplen; closingCh;
+  <fix4; fix14; fix15; fix16; nexth; hs; isRunning; runningCh; hlock; clock; hwg; hadded; maplen; closingCh;
    closedCh; closedF; closeErr; cctx; rcancel; pubClosed; mainp; maint; wat; thr; run_n; panicked>.
 
-Definition rinit (f4 f14 f15 : bool) : rstate :=
-  RS f4 f14 f15 0 (fun _ => h0) false false None None 0 0 0 false false false false false false
+Definition rinit (f4 f14 f15 f16 : bool) : rstate :=
+  RS f4 f14 f15 f16 0 (fun _ => h0) false false None None 0 0 0 false false false false false false
      (fun _ => false) RNone 0 WNone (fun _ => TNone) 0 false.
 
 (** API-level events (what a client / the scripted collaborators can see) *)
@@ -231,6 +233,16 @@ Definition all_started (s : rstate) : bool :=
 Definition none_inflight (s : rstate) : bool :=
   forallb (fun h => Nat.eqb (h_inflight (hs s h)) 0) (seq 0 (nexth s)).
 
+(** Close (D16 repair, under both locks): for every handler of the map that was never started:
+    handlersWg.Done(); delete(r.handlers, name) *)
+Definition removable (x : hst) : bool := h_inmap x && negb (h_started x).
+Definition close_unstarted (s : rstate) : rstate :=
+  if fix16 s then
+    let k := cnt (fun h => removable (hs s h)) (nexth s) in
+    s <| hs := fun h => if removable (hs s h) then hs s h <| h_inmap := false |> <| h_removed := true |> else hs s h |>
+      <| hwg := hwg s - k |> <| maplen := maplen s - k |> <| panicked := panicked s || Nat.ltb (hwg s) k |>
+  else s.
+
 Definition rh_step (s : rstate) (me : owner) (par : parent) (p : rhpc) (c : choice)
   : option (rstate * rhpc * list aev) :=
   match p, c with
@@ -269,7 +281,7 @@ Definition cl_step (s : rstate) (me : owner) (p : clpc) (c : choice) : option (r
       match hlock s with None => Some (s <| hlock := Some me |>, KCheck) | Some _ => None end
   | KCheck, CStep =>
       if closedF s then Some (s <| hlock := None |> <| clock := None |>, KRet (negb (closeErr s)))
-      else Some (s <| closedF := true |> <| closingCh := true |>, KWait)
+      else Some (close_unstarted s <| closedF := true |> <| closingCh := true |>, KWait)
   | KWait, CStep =>
       if Nat.eqb (hwg s) 0 && none_inflight s then Some (s, KFinish true) else None
   | KWait, CAlt => Some (s <| closeErr := true |>, KFinish false)
